@@ -704,7 +704,7 @@ class DSG:
 
         self._mod_graph_adjust_kwargs(kwargs)
         return self.__class__(_graph=graph_copy, _influence_matrix=self._influence_matrix,
-                              _status_array=self._status_array, _choice_con_map=self._choice_constraints,
+                              _status_array=self._status_array, _choice_con_map=self._choice_constraints.copy(),
                               _des_var_values=self._des_var_values, _metric_values=self._metric_values, **kwargs)
 
     """#########################################
